@@ -435,6 +435,10 @@ class Fold:
                 return args[0]          # conversion from an Eigen expression (extra args are enable_if defaults)
             if len(args) == 0:
                 return vec_atoms("uninit@%s" % n["id"])
+        mfix = re.match(r"^(const )?Eigen::Matrix<(double|float|long|int), (\d+), (\d+)", t)
+        if mfix and 1 in (int(mfix.group(3)), int(mfix.group(4))) and len(args) == int(mfix.group(3)) * int(mfix.group(4)) and len(args) in (2, 4, 5, 6) \
+                and not any(isinstance(a, (Matrix, tuple)) for a in args):
+            return Matrix(int(mfix.group(3)), int(mfix.group(4)), args)      # Vector4d(a, b, c, d) and the like: coefficient-wise construction
         if is_mat3(t) and len(args) == 0:
             return mat_atoms("uninit@%s" % n["id"])
         if is_mat3(t) and len(args) >= 1 and isinstance(args[0], Matrix) and args[0].shape == (3, 3):
@@ -1175,28 +1179,38 @@ class Fold:
         c0 = lit_value(d["init"])
         cond = unwrap(s["cond"])
         inc = unwrap(s["inc"])
-        if c0 is None or cond.get("k") != "binop" or cond["op"] not in ("<", "<=", "!="):
+        if c0 is None or cond.get("k") != "binop" or cond["op"] not in ("<", "<=", "!=", ">", ">="):
             return None
         l, r = unwrap(cond["lhs"]), unwrap(cond["rhs"])
         while l.get("k") == "cast":
             l = unwrap(l["sub"])
         c1 = lit_value(r)
-        if l.get("decl") != d["decl"] or c1 is None or unwrap(r).get("k") not in ("int", "cast"):
+        if l.get("decl") != d["decl"] or c1 is None or unwrap(r).get("k") not in ("int", "cast", "unop"):
             return None
-        if not (inc.get("k") == "unop" and inc["op"] == "++" and unwrap(inc["sub"]).get("decl") == d["decl"]):
+        if not (inc.get("k") == "unop" and inc["op"] in ("++", "--") and unwrap(inc["sub"]).get("decl") == d["decl"]):
             return None
         if d["decl"] in self.assigned_in(s["body"]):
             return None
-        stop = int(c1) + (1 if cond["op"] == "<=" else 0)
-        if c0.denominator != 1 or not (0 <= stop - int(c0) <= 8):
+        if c0.denominator != 1 or c1.denominator != 1:
             return None
-        return d["decl"], int(c0), stop
+        down = inc["op"] == "--"
+        if down != (cond["op"] in (">", ">=")):
+            return None
+        if not down:
+            stop = int(c1) + (1 if cond["op"] == "<=" else 0)
+            if not (0 <= stop - int(c0) <= 8):
+                return None
+            return d["decl"], int(c0), stop, 1
+        stop = int(c1) - (1 if cond["op"] == ">=" else 0)          # exclusive lower end
+        if not (0 <= int(c0) - stop <= 8):
+            return None
+        return d["decl"], int(c0), stop, -1
 
     def do_loop(self, s, env):
         trip = self.literal_trip(s, env)
         if trip is not None:
-            decl, a, b = trip
-            for i in range(a, b):
+            decl, a, b, step_ = trip
+            for i in range(a, b, step_):
                 env[decl] = sp.Integer(i)
                 self.begin_loop()
                 try:
